@@ -40,6 +40,10 @@ var c02Hand = []string{
 	"{% for loop in arr %}{{ loop }}{% for j in [1] %}{{ loop.parent }}{{ loop.index }}{% endfor %}{% endfor %}", "{% for i in arr %}{% set loop = i %}{{ loop.index }}{% for j in arr %}{{ loop.parent }}{% endfor %}{% endfor %}",
 	"{% set _self = 3 %}{{ _self }}{{ _self.m() }}{% macro m() %}x{% endmacro %}", "{% for k, loop in {'a': 1} %}{{ loop }}{{ k }}{% endfor %}", "{% set loop = {'parent': {'parent': 3}} %}{% for i in [1] %}{{ loop.parent.parent.parent }}{% endfor %}",
 	"{% set loop = null %}{% for i in arr %}{{ loop.parent }}{% endfor %}", "{% set loop = arr %}{% for i in loop %}{{ loop.index }}{{ loop.parent|length }}{% endfor %}",
+	// a callback that uses everything its context offers, called from every place a callback can be called from
+	"{{ ctxall() }}{% include 'inc' %}{% embed 'inc' %}{% block ib %}{{ ctxall() }}{% block nested %}{{ ctxall() }}{% endblock %}{% endblock %}{% endembed %}{% macro m() %}{{ ctxall() }}{% endmacro %}{{ _self.m() }}{% block b %}{{ ctxall() }}{% endblock %}{{ block('b') }}",
+	"{% set c %}{{ ctxall() }}{% endset %}{% filter upper %}{{ ctxall() }}{% endfilter %}{% for i in arr %}{{ ctxall() }}{% else %}{{ ctxall() }}{% endfor %}{% for i in [] %}{% else %}{{ ctxall() }}{% endfor %}{% if ctxall() %}{% endif %}{% do ctxall() %}{% include ctxall() ~ 'inc' with {'a': ctxall()} only %}",
+	"{% embed 'inc' with {'a': ctxall()} %}{% block ib %}{% embed 'inc' %}{% block ib %}{{ ctxall() }}{{ parent() }}{% endblock %}{% endembed %}{% include 'inc' %}{% endblock %}{% endembed %}{% import 'inc' as q %}{% from 'inc' import nomacro %}",
 	"{{ 1 % 0 }}", "{{ 1 // 0 }}", "{{ 1 / 0 }}", "{{ x % z }}", "{{ 5..1 }}", "{{ (0/0)..3 }}", "{{ 1..2.5 }}", "{{ (-2)..2 }}", "{{ 3..3 }}", "{{ 'a'..'e' }}",
 	"{% for i in arr if i > 1 %}{{ i }}{% endfor %}", "{% for i in arr if false %}{{ i }}{% else %}none{% endfor %}",
 	"{{ m[1] }}", "{{ m[null] }}", "{{ m[true] }}", "{{ {(s):1}[1] }}", "{{ {'a':1}[0] }}", "{{ mi['x'] }}", "{{ mi[1.5] }}", "{{ arr['x'] }}", "{{ arr[null] }}",
@@ -67,7 +71,7 @@ func (p *c02) Init(tier string, seed int64) {
 	p.zoo = append(gen.Scalars(), gen.Containers()...)
 	p.argLists = [][]stick.Value{{}, {0}, {1}, {2}, {-1}, {"x"}, {""}, {nil}, {1.5}, {math.NaN()}, {2, "f"}, {3, nil}, {"Y-m-d"}, {[]int{1, 2}}, {map[string]stick.Value{"a": "b"}}, {1, 2, 3},
 		{400}, {math.Inf(1)}, {-5, "ceil"}, {"a", "b"}, {true},
-		{"\\"}, {"Y-m-d\\"}, {"D, d M Y H:i:s \\a\\t"}, {"jS F y"}, {"%"}, {"%s %d %"}, {strings.Repeat("x", 300)}, {"é"}, {"\xff"}, {-1, -1}, {1 << 40}, {0.5, 0.5},
+		{"j日\\a"}, {"日\\"}, {"é\\é"}, {"\\日"}, {"日本\\語x"}, {"\xe6\\a"}, {"😀\\"}, {"\\"}, {"Y-m-d\\"}, {"D, d M Y H:i:s \\a\\t"}, {"jS F y"}, {"%"}, {"%s %d %"}, {strings.Repeat("x", 300)}, {"é"}, {"\xff"}, {-1, -1}, {1 << 40}, {0.5, 0.5},
 		{2.5}, {2.9, "f"}, {"2.9"}, {3.5}, {7, -2}, {-2.5}, {0.9}, {1, 1.5}, {19}, {20}, {21, 1},
 		{map[string]stick.Value(nil)}, {[]stick.Value(nil)}, {(*int)(nil)}, {gen.ValStringer{S: "s"}}, {[]string{"a", "b"}, "x"}, {"", ""}, {" ", 2}}
 	p.nFilterCase = len(p.filters) * len(p.zoo)
@@ -223,7 +227,7 @@ func (p *c02) Describe(i int) interface{} {
 var c02MainNames = []string{"main", "main.html", "main.js.twig", "twig", ".twig", "twig.twig", ".", "..", "a.", "x/.twig", "main.txt", "noext", ".html", "a..b", "twig.", ".twig.twig", "main", "t.url", "a/b/c", "/", "./twig", "x.twig/y", "é.js", "main.", "...", "main.css"}
 
 // c02Inc is what the hand-written templates include and embed.
-const c02Inc = "<{{ a }}{{ k }}{% block ib %}ib{% endblock %}{% set a = 1 %}{% for q in [1, 2] %}{{ loop.index }}{{ loop.parent }}{% endfor %}{{ _self }}>"
+const c02Inc = "<{{ ctxall() }}{{ a }}{{ k }}{% block ib %}ib{{ ctxall() }}{% endblock %}{% set a = 1 %}{% for q in [1, 2] %}{{ loop.index }}{{ loop.parent }}{% endfor %}{{ _self }}>"
 
 func execNoPanic(env *stick.Env, name string, ctx map[string]stick.Value, budgetLen int) (out string, err error, pan interface{}, steps int64) {
 	var buf bytes.Buffer
